@@ -18,6 +18,7 @@ package c14
 
 import (
 	"encoding/json"
+	"errors"
 	"fmt"
 	"os"
 	"sort"
@@ -43,6 +44,9 @@ type witness struct {
 	Held    []string    `json:"held_locks"`
 	History []vfsh.Step `json:"history,omitempty"`
 	Log     []string    `json:"log,omitempty"`
+	// Round is only read back: hang witnesses (watch_test.go) carry the
+	// name of the round instead of a phase.
+	Round string `json:"round,omitempty"`
 }
 
 // reach accumulates fn/status pairs after which probes were executed.
@@ -219,6 +223,7 @@ func TestCheck(t *testing.T) {
 	defer r.Finish()
 	r.SetRule("probe cases: PRNG(seed,phase,i)-generated stepped histories (VFS: 60-260 operations over <=8 directories in 8 configurations with ~25% of operations aimed at error returns: " +
 		"deleted directories, failing InitialContentsFetcher / FileAllocator / symlink factory / pool I/O, stale leaves; NFSv4.0/4.1: scripted and random COMPOUNDs incl. bad state IDs, seqids, lease expiry; " +
+		"named attributes (tree wired by virtualBuildDirectory.InstallHooks): the product {NFS, FUSE allocator} x {file, directory owner} x 9 kinds of attribute directory contents x every route that drops the owner x {one, two hard links} x {close before, after the unlink} with PRNG-drawn calls into the attribute directory in between, plus concurrent rounds of owner removal racing calls inside the attribute directories; " +
 		"IdleInvoker, sector allocator, LockPile, scheduler: scripted call sequences incl. every error return reachable through the public API; scheduler additionally through the stepped scheduler harness internal/sched with profile C14: calls gated in the authorizer, cancellations, blocking Synchronize/TerminateWorkers, clock advances, queue lock probed at every quiescent point); after every call all locks of all objects ever seen are probed with TryLock; " +
 		"stress rounds: 8-24 goroutines x 40-120 calls on <=4 directories with opposite-direction and parent/child renames, removal of directories being entered, bulk removal racing creation, READDIR/LOOKUP with locked attributes, NFS OPEN/CLOSE/I/O racing lease expiry; " +
 		"non-trivial = the case probed after at least one error return (probe cases) or overlapped the targeted calls (stress rounds); distinct = hash of (configuration, calls, statuses)")
@@ -250,8 +255,16 @@ func TestCheck(t *testing.T) {
 			Witness witness `json:"witness"`
 		}
 		b, err := os.ReadFile(rf)
-		if err != nil || json.Unmarshal(b, &w) != nil {
-			t.Fatalf("cannot read replay file %s", rf)
+		if err == nil {
+			// Hang witnesses describe their case as an object, not as a
+			// number: a type mismatch in one field is not a reason to give up.
+			var typeErr *json.UnmarshalTypeError
+			if err = json.Unmarshal(b, &w); errors.As(err, &typeErr) {
+				err = nil
+			}
+		}
+		if err != nil {
+			t.Fatalf("cannot read replay file %s: %v", rf, err)
 		}
 		for _, s := range errorStatuses {
 			r.Floor("probed-after-error-return:"+s, 0)
@@ -267,6 +280,10 @@ func TestCheck(t *testing.T) {
 	})
 	timed(r, "small-object-probes", func() { runSmallObjectProbes(r, rc) })
 	timed(r, "nfs-probe", func() { runNFSProbes(r, rc) })
+
+	// Phase 1b/2b: named attribute directories (stepped cases with the
+	// same probes, then concurrent rounds under the hang policy).
+	runNamedAttributesPhase(r, rc)
 
 	// Phase 2: termination under concurrency.
 	runStress(r, rc)
@@ -287,10 +304,16 @@ func timed(r *ev.Run, name string, f func()) {
 }
 
 func replay(r *ev.Run, rc *reach, w witness) {
+	if w.Phase == "" && strings.HasPrefix(w.Round, "named-attributes") {
+		w.Phase = "named-attributes"
+	}
 	switch w.Phase {
 	case "vfs-probe":
 		var progress atomic.Int64
 		runVFSProbeCase(r, rc, w.Case, &progress)
+	case "named-attributes", "named-attributes-stress":
+		// Fully determined by the seed, and short.
+		runNamedAttributesPhase(r, rc)
 	default:
 		// Other phases are short and fully determined by the seed.
 		runSmallObjectProbes(r, rc)
